@@ -105,10 +105,12 @@ Proof.
   apply Nat.eqb_eq in E. exists pat, i, name, pre, post, ks, vals, ext, a. auto 10.
 Qed.
 
-Theorem encode_decode m ops addr ws rest :
+Lemma encode_decode_struct m ops addr ws rest :
   compile_insn m ops addr = Ok ws -> no_pc_autoinc ops ->
-  exists name sops, expect m ops addr = Some (name, sops) /\
-                    decode (ws ++ rest) addr = Some (name, sops, List.length ws).
+  exists name pre post ks ss,
+    canon m = Some (name, pre, post) /\ user_kinds name pre post = Some ks /\
+    sem_operands ks ops addr 0 = Some ss /\
+    decode (ws ++ rest) addr = Some (name, map cst_sop pre ++ ss ++ map cst_sop post, List.length ws).
 Proof.
   intros H Hpc. apply compile_insn_inv in H.
   destruct H as [pat [i [name [pre [post [ks [vals [ext [w [L [F [Hlen [He [Hw ->]]]]]]]]]]]]]].
@@ -117,10 +119,20 @@ Proof.
   destruct (S Hpc) as [ext1 [ss [E1 [W [Q1 Q2]]]]]. cbn [app List.length Z.of_nat] in *. subst ext1.
   destruct (ef_word _ _ _ _ _ _ _ F vals R) as [w' [G1 [G2 G3]]].
   rewrite G1 in Hw. inv Hw.
-  exists name, (map cst_sop pre ++ ss ++ map cst_sop post). split.
-  - unfold expect. rewrite (ef_canon _ _ _ _ _ _ _ F), (ef_kinds _ _ _ _ _ _ _ F), Q1. reflexivity.
-  - unfold decode. rewrite G2, G3. rewrite decode_fields_pre.
-    rewrite (decode_fields_post post _ _ _ _ _ _ (Q2 rest)). reflexivity.
+  exists name, pre, post, ks, ss.
+  split; [exact (ef_canon _ _ _ _ _ _ _ F)|]. split; [exact (ef_kinds _ _ _ _ _ _ _ F)|]. split; [exact Q1|].
+  unfold decode. rewrite G2, G3. rewrite decode_fields_pre.
+  rewrite (decode_fields_post post _ _ _ _ _ _ (Q2 rest)). reflexivity.
+Qed.
+
+Theorem encode_decode m ops addr ws rest :
+  compile_insn m ops addr = Ok ws -> no_pc_autoinc ops ->
+  exists name sops, expect m ops addr = Some (name, sops) /\
+                    decode (ws ++ rest) addr = Some (name, sops, List.length ws).
+Proof.
+  intros H Hpc. destruct (encode_decode_struct _ _ _ _ rest H Hpc) as [name [pre [post [ks [ss [C [K [S D]]]]]]]].
+  exists name, (map cst_sop pre ++ ss ++ map cst_sop post). split; [|exact D].
+  unfold expect. rewrite C, K, S. reflexivity.
 Qed.
 
 (* ... and the converse: every line the Spec gives a meaning to is accepted by the model *)
